@@ -85,12 +85,12 @@ package types
 //@ nopanic
 
 //@ func (*MsgProcessWithdrawal).MethodName
-//@ property C01
+//@ property C01 C02
 //@ ensures result == "Bitcoin/ProcessWithdrawal"
 //@ modifies nothing
 
 //@ func (*MsgProcessWithdrawal).VoteSigDoc
-//@ property C01
+//@ property C01 C02
 //@ requires req != nil
 //@ ensures payload: result == bcat(bcat(le64flat(arr(req.Id), off(req.Id), len(req.Id)), sha256(req.NoWitnessTx)), le64(req.TxFee))
 //@ modifies nothing
@@ -105,12 +105,12 @@ package types
 //@ nopanic
 
 //@ func (*MsgReplaceWithdrawal).MethodName
-//@ property C01
+//@ property C01 C02
 //@ ensures result == "Bitcoin/ReplaceWithdrawal"
 //@ modifies nothing
 
 //@ func (*MsgReplaceWithdrawal).VoteSigDoc
-//@ property C01
+//@ property C01 C02
 //@ requires req != nil
 //@ ensures payload: result == bcat(bcat(le64(req.Pid), le64(req.NewTxFee)), sha256(req.NewNoWitnessTx))
 //@ modifies nothing
@@ -139,12 +139,12 @@ package types
 //@ nopanic
 
 //@ func (*MsgNewConsolidation).MethodName
-//@ property C01
+//@ property C01 C02
 //@ ensures result == "Bitcoin/NewConsolidation"
 //@ modifies nothing
 
 //@ func (*MsgNewConsolidation).VoteSigDoc
-//@ property C01
+//@ property C01 C02
 //@ requires req != nil
 //@ ensures payload: result == sha256(req.NoWitnessTx)
 //@ modifies nothing
@@ -159,12 +159,12 @@ package types
 //   modifies nothing
 
 //@ func (*MsgNewPubkey).MethodName
-//@ property C01
+//@ property C01 C02
 //@ ensures result == "Bitcoin/NewPubkey"
 //@ modifies nothing
 
 //@ func (*MsgNewPubkey).VoteSigDoc
-//@ property C01
+//@ property C01 C02
 //@ requires req != nil && req.Pubkey != nil
 //@ ensures payload: result == encpk(req.Pubkey)
 //@ modifies nothing
